@@ -41,7 +41,6 @@ void ares_cancel(ares_channel_t *channel)
 
   if (ares_llist_len(channel->all_queries) > 0) {
     ares_llist_node_t *node = NULL;
-    ares_llist_node_t *next = NULL;
 
     /* Swap list heads, so that only those queries which were present on entry
      * into this function are cancelled. New queries added by callbacks of
@@ -57,12 +56,11 @@ void ares_cancel(ares_channel_t *channel)
       goto done;                        /* LCOV_EXCL_LINE: OutOfMemory */
     }
 
-    node = ares_llist_node_first(list_copy);
-    while (node != NULL) {
+    /* Always take the current head: a callback may start a request whose
+     * failure ends other queries of this list, so a node remembered across the
+     * callback can be gone */
+    while ((node = ares_llist_node_first(list_copy)) != NULL) {
       ares_query_t *query;
-
-      /* Cache next since this node is being deleted */
-      next = ares_llist_node_next(node);
 
       query                   = ares_llist_node_claim(node);
       query->node_all_queries = NULL;
@@ -74,8 +72,6 @@ void ares_cancel(ares_channel_t *channel)
       /* NOTE: its possible this may enqueue new queries */
       query->callback(query->arg, ARES_ECANCELLED, 0, NULL);
       ares_free_query(query);
-
-      node = next;
     }
 
     ares_llist_destroy(list_copy);
